@@ -18,8 +18,8 @@ func init() {
 	families["c06"] = &Family{Run: runC06, Random: randomC06}
 }
 
-// ids 1..10 -> adversarial finite values; 97..99 -> non-finite
-var c06Pool = []float64{0, math.Copysign(0, -1), 0.1, 1e21, 1e-7, 123456789.123456789, -1.5, 5e-324, 1.7976931348623157e308, 12345678.9}
+// ids 1..11 -> adversarial finite values (11, the most negative finite value, is used by the Extremes family only); 97..99 -> non-finite
+var c06Pool = []float64{0, math.Copysign(0, -1), 0.1, 1e21, 1e-7, 123456789.123456789, -1.5, 5e-324, 1.7976931348623157e308, 12345678.9, -1.7976931348623157e308}
 
 func c06Dec(v interface{}) float64 {
 	id := num(v)
